@@ -1,5 +1,6 @@
 import Driver.Common
 import FsicModel.Alias
+import FsicModel.AliasClass
 /-
 Executable instance of M8 (alias part) for the correspondence check.  Names are strings; a stored series is an
 array of integers (the harness writes distinct integers, so a cell identifies the write that produced it);
@@ -167,10 +168,77 @@ def handleHistory (j : Json) : R String := do
         let (s', rs) := run (aliased E a) ⟨strict, vars, []⟩ ops
         pure (joinWith " " (rs.map resStr) ++ "|" ++ storeStr s')
 
+
+/-! export with options -/
+
+def isInternal (s : String) : Bool := s.startsWith "_"
+
+/-- kind `alias_rename_opts`: `{m, pref, names, status, iterations, include_internal}` → the labels of
+    `to_dataframe(use_aliases=True, status=, iterations=, include_internal=)` for an object whose `names` are
+    `names` | `ValueError` | `ctor:ValueError`.  (A plain container: status = iterations = false,
+    include_internal = true.) -/
+def handleRenameOpts (j : Json) : R String := do
+  let m ← parsePairs (← obj j "m")
+  let pref ← parseNames (← obj j "pref")
+  let names ← parseNames (← obj j "names")
+  let o : ExportOpts := ⟨← bool j "status", ← bool j "iterations", ← bool j "include_internal"⟩
+  match instanceAliases m with
+  | .valueError => pure "ctor:ValueError"
+  | .returned a =>
+    match exportOpts strLe a pref isInternal o (names.map fun c => (c, ())) ("status", ()) ("iterations", ()) with
+    | none => pure "ValueError"
+    | some out => pure (joinWith "," (out.map Prod.fst))
+
+/-! class hierarchies -/
+
+def optPairs (j : Json) (k : String) : R (Option (List (String × String))) :=
+  match optObj j k with
+  | none => pure none
+  | some v => do pure (some (← parsePairs v))
+
+def optNames (j : Json) (k : String) : R (Option (List String)) :=
+  match optObj j k with
+  | none => pure none
+  | some v => do pure (some (← parseNames v))
+
+def optNat (j : Json) (k : String) : R (Option Nat) :=
+  match optObj j k with
+  | none => pure none
+  | some v => do pure (some (← v.getNat?))
+
+def parseEvent (j : Json) : R (Event String) := do
+  let k ← str j "e"
+  match k with
+  | "class" => pure (.defClass (← optNat j "parent") (← optPairs j "aliases") (← optNames j "pref"))
+  | "new" => pure (.new (← nat j "cls"))
+  | "set" => pure (.setAliases (← nat j "cls") (← parsePairs (← obj j "aliases")))
+  | "setpref" => pure (.setPref (← nat j "cls") (← parseNames (← obj j "pref")))
+  | "put" => pure (.putAlias (← nat j "cls") (← str j "k") (← str j "v"))
+  | "del" => pure (.delAliases (← nat j "cls"))
+  | _ => throw s!"bad event {k}"
+
+def instStr (names cols : List String) : Inst String → String
+  | .valueError _ => "ValueError"
+  | .ok c a pref =>
+    toString c ++ "|" ++ pairsStr a ++ "|" ++ joinWith "," pref ++ "|" ++
+    pairsStr (names.map fun n => (n, resolve a n)) ++ "|" ++
+    (match exportCols strLe a pref (cols.map fun c => (c, ())) with
+     | none => "ValueError"
+     | some out => joinWith "," (out.map Prod.fst))
+
+/-- kind `alias_hier`: `{events, names, cols}` → one entry per constructor call, in order, joined by ` ; `:
+    `cls|items of self.aliases|preferred_names|resolution of every name|export labels` or `ValueError`. -/
+def handleHier (j : Json) : R String := do
+  let evs ← (← arr j "events").toList.mapM parseEvent
+  let names ← parseNames (← obj j "names")
+  let cols ← parseNames (← obj j "cols")
+  let w := runEvents (World.init : World String) evs
+  pure (joinWith " ; " (w.insts.map (instStr names cols)))
+
 end Drv.Alias
 
 namespace Drv.Alias
 def handlers : List (String × (Lean.Json → Except String String)) :=
   [("alias_shorten", handleShorten), ("alias_prefcheck", handlePrefCheck), ("alias_rename", handleRename),
-   ("alias_history", handleHistory)]
+   ("alias_history", handleHistory), ("alias_rename_opts", handleRenameOpts), ("alias_hier", handleHier)]
 end Drv.Alias
